@@ -1001,6 +1001,9 @@ class AnsiString:
             fillchar = fillchar.base_str
         if len(fillchar) != 1:
             raise ValueError('fillchar must be exactly 1 character in length')
+        if width > sys.maxsize:
+            # (like str: not a MemoryError from an attempt to build half of the padding)
+            raise OverflowError('Python int too large to convert to C ssize_t')
 
         if inplace:
             obj = self
@@ -1039,6 +1042,9 @@ class AnsiString:
             fillchar = fillchar.base_str
         if len(fillchar) != 1:
             raise ValueError('fillchar must be exactly 1 character in length')
+        if width > sys.maxsize:
+            # (like str: not a MemoryError from an attempt to build half of the padding)
+            raise OverflowError('Python int too large to convert to C ssize_t')
 
         if inplace:
             obj = self
@@ -1070,6 +1076,9 @@ class AnsiString:
             fillchar = fillchar.base_str
         if len(fillchar) != 1:
             raise ValueError('fillchar must be exactly 1 character in length')
+        if width > sys.maxsize:
+            # (like str: not a MemoryError from an attempt to build half of the padding)
+            raise OverflowError('Python int too large to convert to C ssize_t')
 
         if inplace:
             obj = self
